@@ -14,6 +14,8 @@ written out with numpy for ``measure``; POVMs built from isometries (exact by co
 
 from __future__ import annotations
 
+import warnings
+
 import numpy as np
 from hypothesis import strategies as st
 
@@ -721,10 +723,13 @@ def _popt_interval(rhos, p):
         else:
             obj = cp.Maximize(sum(p[i] * cp.trace(np.real(rhos[i]) @ ms[i]) for i in range(n)))
         prob = cp.Problem(obj, cons)
-        prob.solve(solver=cp.CLARABEL)
+        with warnings.catch_warnings():
+            warnings.simplefilter("ignore")
+            prob.solve(solver=cp.CLARABEL)
         if prob.status not in ("optimal", "optimal_inaccurate") or any(m.value is None for m in ms):
             raise Inconclusive(f"own SDP status {prob.status}")
         vals = [np.asarray(m.value, dtype=complex) for m in ms]
+        dual = cons[-1].dual_value
     except Inconclusive:
         raise
     except Exception as exc:  # noqa: BLE001  (solver-internal failure of the oracle, not toqito)
@@ -733,9 +738,14 @@ def _popt_interval(rhos, p):
     r = _inv_sqrt(sum(plus))
     feas = [r @ m @ r for m in plus]
     lb = float(sum(p[i] * np.trace(rhos[i] @ feas[i]).real for i in range(n)))
-    y = _herm(sum(p[i] * rhos[i] @ feas[i] for i in range(n)))
-    shift = max(0.0, max(float(_lam(p[i] * rhos[i] - y)[-1]) for i in range(n)))
-    ub = float(np.trace(y).real + d * shift)
+    # dual candidates Y (any Hermitian Y becomes feasible, Y' >= p_i rho_i for all i, after a shift by a multiple of I)
+    cands = [_herm(sum(p[i] * rhos[i] @ feas[i] for i in range(n)))]
+    if dual is not None and np.shape(dual) == (d, d):
+        cands += [_herm(np.asarray(dual, dtype=complex)), -_herm(np.asarray(dual, dtype=complex))]
+    ub = np.inf
+    for y in cands:
+        shift = max(0.0, max(float(_lam(p[i] * rhos[i] - y)[-1]) for i in range(n)))
+        ub = min(ub, float(np.trace(y).real + d * shift))
     return lb, ub
 
 
